@@ -25,6 +25,28 @@ reg(
     "DESIGN.md 5/C18",
 )
 
+POOL_NOTE = ("Bounded: pools of 4 (quick) / 5 (thorough) points with two classes, batch sizes <= 3/4, deviation bound 1/2 on the tie / "
+             "choice tapes; draws other than arg-max tie-breaks and choice(replace=False) come from the seeded generator; wrapped "
+             "scikit-learn estimators are trusted. Known genuine defects are listed in known_findings.json.")
+reg(
+    "C01",
+    "bounded exhaustive enumeration (all labelings x candidate modes x batch sizes of small pools) with stateless DFS over tie/choice tapes (iterated deviation bound), real query() executed and judged against a reference model of the candidate set",
+    "Every strategy variant of skactiveml.pool is executed on every labeling of small pools (incl. duplicated points, cold start, single "
+    "candidate), every candidate mode and batch size, and every resolution of every random tie / without-replacement draw up to the "
+    "deviation bound; each execution is judged for shape, length, distinctness and membership in the reference candidate set; real-seed "
+    "runs are observed and replayed through the tape model (conformance).",
+    POOL_NOTE,
+    "DESIGN.md 5/C01",
+)
+reg(
+    "C02",
+    "same exploration as C01 (bounded exhaustive inputs x tie/choice tapes); oracle on the returned utilities: NaN layout per step, arg-max / positive-mass relation",
+    "On every execution of the C01 grid the utility rows are checked: shape, NaN exactly at non-candidates and earlier picks, pick attains "
+    "the row maximum (maximising strategies) or has positive mass (sampling strategies), under every tie pattern resolution.",
+    POOL_NOTE,
+    "DESIGN.md 5/C02",
+)
+
 
 def main():
     props = [json.loads(l) for l in open(os.path.join(HOME, "properties.jsonl"))]
